@@ -18,7 +18,7 @@ RULE = ("random BC point lists (1-6 points, distinct Mach, by Mach or by velocit
         "the table is given as DragDataPoint objects or the points are out of order")
 MUST_OBSERVE = ["models_built", "nodes_checked", "form_dicts", "form_donor_points", "form_fresh_points", "with_weight",
                 "without_weight", "single_point_equivalence", "single_point_fired", "by_velocity", "by_mach",
-                "shuffled_points", "second_builds", "donor_unchanged_checks"]
+                "shuffled_points", "second_builds", "donor_unchanged_checks", "foreign_model_tuned"]
 ASSUMPTIONS = ["velocity points are converted to Mach with the standard 15 C speed of sound sqrt(288.15) x 20.0467 m/s",
                "the order of the caller's BC point list is not asserted (sorting it changes neither the table nor the points)"]
 VU = {"MPS": 1.0, "FPS": 0.3048, "KMH": 1 / 3.6, "MPH": 0.44704, "KT": 1852 / 3600}
@@ -177,6 +177,23 @@ def check_case(ctx, case):
                     if not abs(va - vb) <= 1e-9 * max(abs(vb), 1.0):
                         ctx.violation("single-point.trajectory", f"trajectory {f} differs: {va!r} vs {vb!r}", case)
                         break
+    if form == "dicts" and isinstance(case["table"], str):
+        # somebody tunes a model of their own that was built from the same shipped table (edits its points through the public
+        # attributes): the shipped table, and every model built from it afterwards, must not notice
+        ctx.count("foreign_model_tuned")
+        mine = DragModel(0.4, table_arg)
+        for p in mine.drag_table[::2]:
+            p.CD *= 1.17
+        for p in a.drag_table[1::3]:
+            p.CD *= 0.9
+        c3 = DragModelMultiBC(pts, table_arg, **kw)
+        if [(p.Mach, p.CD) for p in c3.drag_table] != [(p.Mach, p.CD) for p in b.drag_table] or c3.BC != b.BC:
+            i = next((i for i, (x, y) in enumerate(zip(c3.drag_table, b.drag_table)) if x.CD != y.CD), -1)
+            ctx.violation("build-after-foreign-edit-differs", f"after the points of *another* model built from Table{case['table']} were edited, "
+                                                              f"building from the same inputs gives a different model (entry {i})", case)
+        plain2 = DragModel(0.4, table_arg)
+        if [p.CD for p in plain2.drag_table] != [p["CD"] for p in table_arg]:
+            ctx.violation("plain-model-after-foreign-edit", f"DragModel(0.4, Table{case['table']}) no longer carries the shipped Cd values after another model's points were edited", case)
     nontrivial = len(case["points"]) >= 2 and (form != "dicts" or shuffled)
     ctx.case(case, nontrivial=nontrivial)
     reset_globals()
